@@ -192,6 +192,10 @@ func genC07(seed uint64, run int, tier string) Scenario {
 		sc.Ops = append(sc.Ops, send())
 	}
 	sc.State = pick(r, c07States...)
+	if r.IntN(25) == 0 {
+		// more than a thousand chunks read and queued, none of them taken, when Close comes
+		sc.State = "backlog"
+	}
 	rdUS := int64(rd / time.Microsecond)
 	if rdUS == 0 {
 		rdUS = 1
@@ -214,6 +218,10 @@ func genC07(seed uint64, run int, tier string) Scenario {
 		sc.Ops = append(sc.Ops, OpSpec{Kind: "lose:readerr"})
 	case "eof-arriving":
 		sc.Ops = append(sc.Ops, OpSpec{Kind: "lose:eof"})
+	case "backlog":
+		n := between(r, 1040, 1300)
+		sc.ReadSize = 1
+		sc.Ops = append(sc.Ops, OpSpec{Kind: "inject", Cmd: strings.Repeat("%LOG-7: chatter ", n/16+1)[:n] + g.nl}, idle(n+between(r, 0, 40)))
 	case "op-in-flight":
 		s := send()
 		sc.Ops = append(sc.Ops, OpSpec{Kind: "spawn", Target: "getprompt"}, idle(pick(r, 0, 0, 1, 2)))
